@@ -10,7 +10,8 @@ META = dict(
          "messages up to 100 bytes in the thorough tier) is delivered to a fresh ioflo Requestant or Respondent with parse() called after "
          "each receive, as the service loops do, and with idle parse() calls (no new bytes) between two receives as a further environment choice "
          "(quick: at most one gap with one idle pass; thorough: 0-2 per gap).  Parsed start line, headers, body, trailers and the unconsumed remainder must equal the "
-         "generator's ground truth and the one-piece parse.  A dozen messages above 64 KiB (large bodies, a 70 000-byte chunk, a small message in "
+         "generator's ground truth and the one-piece parse.  Re-armed parser: a message with a body followed by a bodiless one on ONE parser instance re-armed with "
+         "makeParser(), whole and cut at every offset.  A dozen messages above 64 KiB (large bodies, a 70 000-byte chunk, a small message in "
          "front of a large one) are delivered whole, in two pieces at a handful of cut points and in 8 KiB pieces with the same oracle.  States = (message, split, idle passes) schedules, transitions = parse() steps.",
     note="Bounded by message set and piece count (<=3 / <=4): a defect needing four or more specific cut points in one long message, or "
          "a message feature outside the generated set (obs-fold, duplicate header names, mixed LF/CRLF heads), is out of reach. "
@@ -381,7 +382,98 @@ def work_large(idx):
     return part
 
 
+# --------------------------------------------------------------------------- re-armed parser (keep-alive)
+
+REARM = {   # kind -> (labels of first messages with a body, labels of following messages whose head implies no body)
+    "req": (["req-post-len", "req-put-chunked", "req-post-chunked-trailers"],
+            ["req-get-min", "req-delete-len0", "req-http10-bare", "req-options-star"]),
+    "rsp": (["rsp-200-len", "rsp-200-chunked", "rsp-200-chunked-trailers"],
+            ["rsp-204", "rsp-304", "rsp-200-len0", "rsp-head-len"]),
+}
+
+
+def observe(kind, p):
+    start = (p.method, p.url, p.version) if kind == "req" else (p.version, p.status, p.reason)
+    return dict(outcome="errored" if p.errored else "parsed", start=start, headers=hdict(p.headers), body=bytes(p.body),
+                trailers=hdict(p.trails), rest=bytes(p.msg), error=p.error)
+
+
+def rearm_exec(kind, a, b, pieces):
+    """ONE parser instance: message a, makeParser() (the way Valet / Porter / Patron re-arm it on a
+    persistent connection; Patron also reinit(method=)), message b.  -> ([obs a, obs b] or fewer, steps)."""
+    from ioflo.aio.http import clienting, serving
+    if kind == "req":
+        p = serving.Requestant(msg=bytearray(), incomer=FakeIncomer())
+    else:
+        p = clienting.Respondent(msg=bytearray(), method=a["method"])
+    out, steps = [], 0
+    try:
+        for piece in list(pieces) + [b"", b""]:
+            p.msg.extend(piece)
+            for _ in range(3):
+                steps += 1
+                p.parse()
+                if p.parser is not None or len(out) == 2:
+                    break
+                out.append(observe(kind, p))
+                if len(out) == 1:
+                    p.makeParser()
+                    if kind == "rsp":
+                        p.reinit(method=b["method"])
+    except Exception as ex:
+        out.append(dict(outcome="raises", exc="%s|%s" % (type(ex).__name__, innermost(ex)), detail=str(ex)[:120]))
+    return out, steps
+
+
+def work_rearm(kind):
+    core.use_repo()
+    byl = {m["label"]: m for m in messages()}
+    part = core.Part()
+    parser = "Requestant" if kind == "req" else "Respondent"
+    firsts, seconds = REARM[kind]
+    for la in firsts:
+        for lb in seconds:
+            a, b = byl[la], byl[lb]
+            wire = a["wire"][:a["msglen"]] + b["wire"]
+            truth_a = dict(a["truth"], rest=None)
+            for cut in [0] + list(range(1, len(wire))):
+                pieces = [wire] if cut == 0 else [wire[:cut], wire[cut:]]
+                (obs, steps), hang = split.guarded(lambda: rearm_exec(kind, a, b, pieces), 5.0, 20.0, _HANG)
+                part.states += 1
+                part.transitions += steps
+                part.traces += 1
+                part.evaluations += 1
+                part.nontrivial(("rearm", la, lb, cut))
+                case = "%s then %s%s" % (la, lb, " cut@%d" % cut if cut else "")
+                replay = dict(parser=parser, first=la, second=lb, wire=wire, pieces=pieces,
+                              how="one %s: parse() until the first message ends, makeParser()%s, parse() on" % (
+                                  parser, " + reinit(method=%r)" % b["method"] if kind == "rsp" else ""))
+                problem = None
+                if len(obs) < 2 or obs[-1]["outcome"] != "parsed":
+                    problem = ("incomplete", "only %d message(s) parsed: %r" % (len(obs), [o["outcome"] for o in obs]))
+                else:
+                    for which, o, truth in (("first", obs[0], truth_a), ("second", obs[1], b["truth"])):
+                        for f in ("start", "headers", "body", "trailers", "rest"):
+                            if f == "rest" and which == "second":      # bytes of the tail delivered so far stay unconsumed
+                                if truth[f].startswith(o[f]):
+                                    continue
+                            if truth.get(f) is not None and o[f] != truth[f]:
+                                problem = ("%s-message-%s" % (which, f), "%s message %s parsed as %r, content is %r"
+                                           % (which, f, o[f], truth[f]))
+                                break
+                        if problem:
+                            break
+                part.outcome("%s:rearmed:%s" % (kind, problem[0] if problem else "ok"))
+                if problem:
+                    part.violation("%s|re-armed|%s" % (parser, problem[0]), case,
+                                   "%s re-armed with makeParser() on one connection, %s: %s" % (parser, case, problem[1]), replay)
+    part.sample(dict(family="re-armed parser", kind=kind, pairs=len(firsts) * len(seconds)))
+    return part
+
+
 def work(arg):
+    if arg[0] == "rearm":
+        return work_rearm(arg[1])
     if arg[0] == "large":
         return work_large(arg[1])
     idx, k = arg
@@ -458,7 +550,7 @@ def run():
     # biggest first for balance; results are merged in message order
     order = sorted(range(len(items)), key=lambda i: -split.count_splits(len(ms[i]["wire"]), items[i][1]))
     nlarge = len(large_messages())
-    res = core.pmap(work, [items[i] for i in order] + [("large", j) for j in range(nlarge)])
+    res = core.pmap(work, [items[i] for i in order] + [("large", j) for j in range(nlarge)] + [("rearm", "req"), ("rearm", "rsp")])
     parts = [None] * len(items)
     for pos, i in enumerate(order):
         parts[i] = res[pos]
@@ -479,6 +571,9 @@ def run():
         "byte chunk + more chunks + trailers, read-until-close, a small message followed by a 70 000 byte one) are delivered whole, in two "
         "pieces at ~10 cut points (around the head end, mid body, at 65536/65537, around the message end) and in 8192- and 60000-byte pieces; "
         "same ground-truth oracle",
+        "re-armed parser family: on a persistent connection Valet / Porter / Patron call makeParser() on the SAME Requestant / Respondent for "
+        "the next message; a message with a body followed by a message whose head implies no body (GET, Content-Length: 0, 204, 304, HEAD "
+        "response) is parsed that way, whole and cut in two at every offset; both results must equal their ground truth",
         "read-until-close responses: peer close is signalled with Respondent.close() after the last receive",
         "'its bytes' = the message's own bytes: the parse must be complete once the receive carrying the message's last byte has been "
         "parsed (field 'prompt'), not only after bytes of the next message arrive",
